@@ -703,13 +703,14 @@ PTR_SYMS = ["local_d", "hidden_d", "hidden_f"]
 
 def ptr_case(rec, out, got=True):
     return {"kind": "ptr", "offs": list(rec["offs"]), "secodd": bool(rec["secodd"]), "relr": bool(rec["relr"]),
+            "aligned": bool(rec.get("aligned", False)),
             "out": out, "got": got, "sym": "hidden_d", "ref": "abs64", "relax": False,
             "alloc_relr": rec.get("alloc_relr"), "write_relr": rec.get("write_relr"),
             "predicted_mismatch": bool(rec.get("predicted_mismatch"))}
 
 
 def ptr_name(c):
-    return f"ptr-{c['out']}-o{'_'.join(map(str, c['offs']))}-odd{int(c['secodd'])}-r{int(c['relr'])}-g{int(c['got'])}"
+    return f"ptr-{c['out']}-o{'_'.join(map(str, c['offs']))}-odd{int(c['secodd'])}-al{int(c.get('aligned', False))}-r{int(c['relr'])}-g{int(c['got'])}"
 
 
 def ptr_source(c):
@@ -721,7 +722,9 @@ def ptr_source(c):
 l_d: .quad {IDS['l_d']}, {IDS['l_d'] ^ 0xffff}
 """
     body = ""
-    data = '.section .data.site,"aw",@progbits\n' + f'.ascii "{mk("site")}"\nsite:\n'
+    # aligned: the section is 8-aligned (the marker is 16 bytes, so field offsets keep their parity)
+    al = ".balign 8\n" if c.get("aligned") else ""
+    data = '.section .data.site,"aw",@progbits\n' + al + f'.ascii "{mk("site")}"\nsite:\n'
     pos = 0
     for i, off in enumerate(sorted(c["offs"])):
         k = PTR_SYMS[i % len(PTR_SYMS)]
